@@ -1246,14 +1246,14 @@ def check_block_positive_doc(case):
 # ------------------------------------------------------------------------------------------------------
 SUBCHECKS = [
     SubCheck("pure_closed_forms", check_pure_closed_forms, _pure_case, nt_pure, quick=6000, thorough=100000, shards=8),
-    SubCheck("schmidt_rank", check_schmidt_rank, lambda: _schmidt_rank_case(None), nt_schmidt_rank, quick=3600, thorough=60000, shards=8),
+    SubCheck("schmidt_rank", check_schmidt_rank, lambda: _schmidt_rank_case(None), nt_schmidt_rank, quick=3600, thorough=60000, shards=8, fuzz=6000),
     SubCheck("schmidt_rank_equal_dims", check_schmidt_rank, lambda: _schmidt_rank_case([(2, 2), (3, 3), (4, 4)]), nt_schmidt_rank_eq, quick=1800, thorough=30000, shards=4),
     SubCheck("schmidt_decomposition_vec", check_sd_vec, _sd_vec_case, nt_sd_vec, quick=4000, thorough=70000, shards=6),
     SubCheck("schmidt_decomposition_op", check_sd_op, _sd_op_case, nt_sd_op, quick=3000, thorough=50000, shards=6),
     SubCheck("mixed_local_unitary", check_mixed_lu, _mixed_case, nt_mixed, quick=4000, thorough=70000, shards=8),
     SubCheck("entropy_purity", check_entropy, _entropy_case, nt_entropy, quick=2400, thorough=40000, shards=6),
     SubCheck("is_product_vec", check_is_product_vec, _isprod_vec_case, nt_isprod_vec, quick=4800, thorough=80000, shards=8),
-    SubCheck("is_product_op", check_is_product_op, _isprod_op_case, nt_isprod_op, quick=2400, thorough=40000, shards=6),
+    SubCheck("is_product_op", check_is_product_op, _isprod_op_case, nt_isprod_op, quick=2400, thorough=40000, shards=6, fuzz=6000),
     SubCheck("scalar_dim_schmidt_decomposition", check_scalar_dim, lambda: _scalar_dim_case("schmidt_decomposition"), nt_scalar_dim, quick=600, thorough=10000, shards=2),
     SubCheck("scalar_dim_is_product", check_scalar_dim, lambda: _scalar_dim_case("is_product"), nt_scalar_dim, quick=600, thorough=10000, shards=2),
     SubCheck("sk_norm_no_sdp", check_sk_nosdp, lambda: _sk_case(False), nt_sk, quick=2400, thorough=40000, shards=8, case_timeout=30),
